@@ -25,9 +25,9 @@ BUDGET = {"quick": {"shards": 8, "cases": 18}, "thorough": {"shards": 16, "cases
 MIN_NT = {"quick": 500, "thorough": 10000}
 ASSUMPTIONS = ["crash model of the property: a prefix of the ordered, atomic stdio writes on the HDF stream",
                "DD caching at its default (on)"]
-BASES = ["h_elements", "vdata_vgroup", "sd_basic", "gr", "an", "h_many", "dfsd"]
-SESSIONS = ["h_append", "v_append", "sd_append", "gr_append", "an_append", "v_edit"]
-ALL_PREFIX = {"h_append", "v_append"}
+BASES = ["h_elements", "vdata_vgroup", "sd_basic", "gr", "an", "h_many", "dfsd", "h_maxref"]
+SESSIONS = ["h_append", "v_append", "sd_append", "gr_append", "an_append", "v_edit", "h_newref"]
+ALL_PREFIX = {"h_append", "v_append", "h_newref"}
 
 
 def nontrivial(labels):
@@ -48,6 +48,15 @@ def base_program(name, ndds):
         # a descriptor without data of its own: with 4 descriptors per block it opens a new descriptor block,
         # which is then the last thing in the file
         p.call("i", "Hdupdd", V("f"), 901, 1, 900, 1)
+        p.call("i", "Hclose", V("f"))
+        return p, "f.hdf"
+    if name == "h_maxref":
+        # the reference space has been used up to 65535 and the descriptors are not in ascending order of
+        # reference: new references have to be searched for
+        p = Prog()
+        p.call("i", "Hopen", "f.hdf", 7, ndds, bind="f")
+        for r_ in (1, 3, 2, 65535):
+            p.call("i", "Hputelement", V("f"), 950, r_, bytes([65 + (r_ % 7)]) * 16, 16)
         p.call("i", "Hclose", V("f"))
         return p, "f.hdf"
     if name == "dfsd":
@@ -83,6 +92,14 @@ def session_program(kind, fname, params):
             p.call("i", "HLcreate", V("f"), 951, 1, 8, 2, bind="l")
             p.call("i", "Hwrite", V("l"), 30, bytes(range(30)))
             p.call("i", "Hendaccess", V("l"))
+        p.raw("!mark flush")
+        p.call("i", "Hclose", V("f"))
+    elif kind == "h_newref":
+        # new elements under references handed out by the library
+        p.call("i", "Hopen", fname, 3, 0, bind="f")
+        for i, n in enumerate(params["sizes"]):
+            p.call("u", "Hnewref", V("f"), bind="nr")
+            p.call("i", "hx_put_if_ref", V("f"), 950, V("nr"), bytes([(i * 7 + 1) & 0xff]) * n, n)
         p.raw("!mark flush")
         p.call("i", "Hclose", V("f"))
     elif kind == "v_append":
@@ -169,7 +186,7 @@ def session_program(kind, fname, params):
 
 
 COMPAT = {"h_append": ["h_elements", "h_many", "vdata_vgroup", "an"], "v_append": ["vdata_vgroup", "h_elements", "h_many"],
-          "v_edit": ["vdata_vgroup"], "sd_append": ["sd_basic", "dfsd"], "gr_append": ["gr", "h_many"], "an_append": ["an", "h_many", "h_elements"]}
+          "v_edit": ["vdata_vgroup"], "h_newref": ["h_maxref", "h_many", "h_elements"], "sd_append": ["sd_basic", "dfsd"], "gr_append": ["gr", "h_many"], "an_append": ["an", "h_many", "h_elements"]}
 
 
 @st.composite
@@ -180,6 +197,8 @@ def strategy_(draw, tier):
     if kind == "h_append":
         params["sizes"] = draw(st.lists(st.integers(1, 40), min_size=1, max_size=24))
         params["linked"] = draw(st.booleans())
+    elif kind == "h_newref":
+        params["sizes"] = draw(st.lists(st.integers(1, 16), min_size=1, max_size=6))
     elif kind == "v_append":
         params["nvd"] = draw(st.integers(1, 5))
     elif kind == "v_edit":
